@@ -5,13 +5,15 @@ import (
 	"github.com/jsightapi/jsight-schema-go-library/notations/jschema/internal/schema/constraint"
 )
 
-func addRequiredKey(node *schema.ObjectNode, key string) {
-	requiredKeys := node.Constraint(constraint.RequiredKeysConstraintType)
-	if requiredKeys == nil {
-		requiredKeys := constraint.NewRequiredKeys()
-		requiredKeys.AddKey(key)
+func addRequiredKey(node *schema.ObjectNode, key string, isShortcut bool) {
+	requiredKeys, ok := node.Constraint(constraint.RequiredKeysConstraintType).(*constraint.RequiredKeys)
+	if !ok {
+		requiredKeys = constraint.NewRequiredKeys()
 		node.AddConstraint(requiredKeys)
+	}
+	if isShortcut {
+		requiredKeys.AddShortcutKey(key)
 	} else {
-		requiredKeys.(*constraint.RequiredKeys).AddKey(key)
+		requiredKeys.AddKey(key)
 	}
 }
